@@ -1138,6 +1138,15 @@ func (l *LineWrapper) wrapNextLine(config lineConfig) (done bool) {
 				return false
 			}
 		}
+		if !l.scratch.hasBest() && !config.truncating {
+			// No grapheme boundary can be used inside the segment (it lies
+			// within a grapheme or a glyph cluster). Use the whole segment even
+			// if it does not fit, so that the line contains something.
+			l.restore()
+			if result, candidateRun := l.processBreakOption(option, config); result != breakInvalid {
+				l.scratch.markCandidateBest(candidateRun)
+			}
+		}
 		return false
 	}
 	return true
